@@ -2,8 +2,27 @@
 import gens as G
 
 PROPS = {
-    'C01': dict(
-        streams=[('addsub', G.gen_addsub, 60000, 1500000), ('mul', G.gen_mul, 40000, 800000),
-                 ('div', G.gen_div, 40000, 800000), ('sqrt', G.gen_sqrt, 20000, 400000)],
-    ),
+    'C01': dict(streams=[('addsub', G.gen_addsub, 60000, 1500000), ('mul', G.gen_mul, 40000, 800000),
+                         ('div', G.gen_div, 40000, 800000), ('sqrt', G.gen_sqrt, 20000, 400000),
+                         ('operators', G.gen_operators, 20000, 200000)]),
+    'C02': dict(streams=[('fma', G.gen_fma, 120000, 2500000)]),
+    'C03': dict(streams=[('cmp', G.gen_cmp, 400000, 6000000), ('ops', G.gen_ops, 40000, 600000)]),
+    'C04': dict(streams=[('parse', G.gen_parse, 80000, 1500000)]),
+    'C05': dict(streams=[('fmt', G.gen_fmt, 40000, 400000), ('roundtrip', G.gen_roundtrip, 40000, 600000)]),
+    'C06': dict(streams=[('toint', G.gen_toint, 120000, 2500000), ('fromint', G.gen_fromint, 30000, 1000000),
+                         ('roundtrip', G.gen_int_roundtrip, 30000, 500000)]),
+    'C07': dict(streams=[('frombin', G.gen_frombin, 60000, 1500000)]),
+    'C08': dict(streams=[('rint', G.gen_rint, 120000, 2000000)]),
+    'C09': dict(streams=[('quantize', G.gen_quantize, 100000, 2000000), ('queries', G.gen_quantum_queries, 40000, 400000),
+                         ('samequantum', G.gen_quantize_samequantum, 10000, 100000)]),
+    'C10': dict(streams=[('rem', G.gen_rem, 80000, 1500000)]),
+    'C11': dict(streams=[('scaleb', G.gen_scaleb, 100000, 2000000), ('logb', G.gen_logb, 40000, 400000)]),
+    'C12': dict(streams=[('nan', G.gen_nan, 120000, 1500000), ('invalid', G.gen_invalid_sources, 20000, 200000)]),
+    'C13': dict(streams=[('class', G.gen_class, 60000, 600000), ('noncanon', G.gen_noncanon_ops, 80000, 1000000)]),
+    'C14': dict(streams=[('status', G.gen_all_ops_status, 150000, 3000000)]),
+    'C16': dict(streams=[('minmax', G.gen_minmax, 120000, 2000000)]),
+    'C17': dict(streams=[('next', G.gen_next, 120000, 2000000)]),
+    'C18': dict(streams=[('total', G.gen_total, 150000, 3000000)]),
+    'C19': dict(streams=[('dpd', G.gen_dpd, 120000, 2000000)]),
+    'C20': dict(streams=[('ops', G.gen_ops, 60000, 1000000), ('hash', G.gen_hash, 60000, 1000000)]),
 }
